@@ -466,19 +466,29 @@ where
                 let k = if let Op::Chunk(_, k) = op { k } else { ALL };
                 loop {
                     sh::begin_call();
-                    let r = sh::guarded(|| it.next_chunk(n));
-                    let ci = sh::end_call();
-                    let mut got = false;
-                    match r {
-                        Ok(Some(c)) => {
+                    // the values of a chunk may be produced lazily (clones): consume inside the guarded region
+                    let r = sh::guarded(|| match it.next_chunk(n) {
+                        Some(c) => {
+                            let ci = sh::end_call();
                             let b = c.begin_idx;
                             let (announced, seen) = consume_chunk(cx, tid, &what, c.values, k);
                             cx.on_got(tid, &what, &ci, Some(b), announced, &seen, Some(n));
-                            got = true;
+                            true
                         }
-                        Ok(None) => cx.on_end(true),
-                        Err(m) => on_panic(cx, tid, &what, &m),
-                    }
+                        None => {
+                            let _ci = sh::end_call();
+                            cx.on_end(true);
+                            false
+                        }
+                    });
+                    let got = match r {
+                        Ok(g) => g,
+                        Err(m) => {
+                            let _ = sh::end_call();
+                            on_panic(cx, tid, &what, &m);
+                            false
+                        }
+                    };
                     if !(got && matches!(op, Op::DrainChunk(_))) {
                         break;
                     }
@@ -683,6 +693,8 @@ where
     I::Item: Obs,
 {
     let cfg = &cx.cfg;
+    probe::disarm_faults();
+    elem::disarm_clone_fault();
     let mut shared = match Rc::try_unwrap(shared) {
         Ok(s) => s,
         Err(_) => {
